@@ -278,6 +278,8 @@ func (hookC08) event(x *fleetExec, e engine.Event) bool {
 	case "mismatch":
 		c08Mismatch(x, e)
 		return true
+	case "checkpoint", "diskfault", "crash", "restart":
+		return x.c08Disk(e)
 	}
 	return false
 }
@@ -465,4 +467,120 @@ func init() {
 	fleetHooks["C06"] = func() fleetHook { return hookC06{} }
 	fleetHooks["C07"] = func() fleetHook { return hookC07{} }
 	fleetHooks["C08"] = func() fleetHook { return hookC08{} }
+}
+
+// ---- C08 in context: checkpoints on a faulty disk, crash and restart ------------------------------
+//
+//	checkpoint N     encode node N (with its mapping) to the simulated disk
+//	diskfault N I S  damage N's newest checkpoint: S = torn (keep only the first I mod len bytes) | lost
+//	crash N          only durable state survives: the in-memory sketch is discarded
+//	restart N        restore from the newest checkpoint that decodes; a torn checkpoint must be
+//	                 *reported* (skipped), or - when the tear falls between blocks - restore exactly
+//	                 the complete blocks
+
+type checkpoint struct {
+	data  []byte
+	model *refmodel.RefSketch
+	torn  bool
+}
+
+func (x *fleetExec) c08Disk(e engine.Event) bool {
+	nd := x.nodes[e.N]
+	if nd == nil {
+		return true
+	}
+	if x.disk == nil {
+		x.disk = map[int][]*checkpoint{}
+	}
+	sig := e.Ev + "/" + nd.spec.Role + "/" + nd.spec.Store
+	switch e.Ev {
+	case "checkpoint":
+		var buf []byte
+		x.lib("Encode", sig, func() { nd.real.Encode(&buf, false) })
+		x.disk[e.N] = append(x.disk[e.N], &checkpoint{data: buf, model: nd.model.Clone()})
+		if len(x.disk[e.N]) > 4 {
+			x.disk[e.N] = x.disk[e.N][1:]
+		}
+		x.st.Probe("checkpoint-written")
+	case "diskfault":
+		cps := x.disk[e.N]
+		if len(cps) == 0 {
+			return true
+		}
+		last := cps[len(cps)-1]
+		if e.S == "lost" {
+			x.disk[e.N] = cps[:len(cps)-1]
+			x.st.Fault("lost-write")
+		} else if len(last.data) > 0 {
+			k := int(((e.I % int64(len(last.data))) + int64(len(last.data))) % int64(len(last.data)))
+			last.data = last.data[:k]
+			last.torn = true
+			x.st.Fault("torn-write")
+		}
+	case "crash":
+		nd.real = x.newSketch(&nd.spec, nd.mapping)
+		nd.model.Clear()
+		nd.tainted = false
+		nd.twin, nd.replica = nil, nil
+		x.st.Fault("crash")
+	case "restart":
+		cps := x.disk[e.N]
+		restored := false
+		for i := len(cps) - 1; i >= 0 && !restored; i-- {
+			cp := cps[i]
+			blocks, perr := refmodel.DocParse(cp.data)
+			c := refmodel.NewDocContent()
+			c.Apply(blocks)
+			var d sk
+			var derr error
+			x.lib("Decode", sig, func() {
+				if nd.exact() {
+					d, derr = ddsketch.DecodeDDSketchWithExactSummaryStatistics(append([]byte(nil), cp.data...), providerFor(nd.spec.Store, nd.spec.N), nil)
+				} else {
+					d, derr = ddsketch.DecodeDDSketch(append([]byte(nil), cp.data...), providerFor(nd.spec.Store, nd.spec.N), nil)
+				}
+			})
+			x.st.Oracle("torn-checkpoint-skipped")
+			switch {
+			case perr != nil: // torn inside a block
+				if derr == nil {
+					x.fail("torn-checkpoint-skipped", sig, fmt.Sprintf("a checkpoint torn inside a block (%d bytes left) was restored as if it were complete", len(cp.data)), "an error, so that the previous checkpoint is used", "nil")
+				}
+				x.st.Probe("torn-checkpoint-skipped")
+				continue
+			case !c.HasMapping:
+				if derr == nil {
+					x.fail("torn-checkpoint-skipped", sig, "a checkpoint torn before its mapping block was restored without a mapping", "an error", "nil")
+				}
+				continue
+			}
+			if derr != nil {
+				if nd.exact() && c.Count == 0 {
+					continue // documented: the exact decoder needs the statistics blocks
+				}
+				x.fail("boundary-content", sig, fmt.Sprintf("an intact checkpoint (or one torn exactly between blocks) could not be restored: %v", derr), "restored", derr.Error())
+			}
+			want := cp.model.CloneAs(nd.spec.Store, nd.spec.N)
+			if cp.torn {
+				want = contentFromDoc(c, nd.spec.Store, nd.spec.N)
+			}
+			x.compareContentNamed(d, want, "success-implies-complete-blocks", sig, "restored checkpoint", !nd.exact() || !cp.torn)
+			nd.real, nd.model = d, want
+			if cp.torn {
+				nd.model.Lossy = true
+			}
+			restored = true
+			x.st.ProbeIf(cp.torn, "restored-from-checkpoint-torn-between-blocks")
+			x.st.ProbeIf(!cp.torn && i < len(cps)-1, "fell-back-to-older-checkpoint")
+			x.st.ProbeIf(!cp.torn && i == len(cps)-1, "restored-newest-checkpoint")
+		}
+		if !restored {
+			nd.real = x.newSketch(&nd.spec, nd.mapping)
+			nd.model.Clear()
+			x.st.Probe("restart-with-no-usable-checkpoint")
+		}
+	default:
+		return false
+	}
+	return true
 }
